@@ -176,6 +176,9 @@ class Injector:
         self.trace: list | None = None
         self._line_cache: dict[tuple[int, int], int] = {}
         self.active = False
+        self.region: str | None = None
+        self.region_nth = -1
+        self.region_count = 0
         mon.register_callback(self.tid, mon.events.CALL, self._on_call)
 
     # -- helpers ---------------------------------------------------------
@@ -223,9 +226,14 @@ class Injector:
             return None
         k = self.count
         self.count += 1
+        hit_region = False
+        if self.region is not None and self.region in code.co_qualname:
+            hit_region = self.region_count == self.region_nth
+            self.region_count += 1
         if self.trace is not None:
             self.trace.append((code.co_qualname, line - code.co_firstlineno, getattr(callee, "__name__", type(callee).__name__)))
-        if self.target is not None and k == self.target:
+        if (self.target is not None and k == self.target) or hit_region:
+            self.region = None
             self.fired = {
                 "k": k,
                 "in": code.co_qualname,
@@ -238,8 +246,14 @@ class Injector:
         return None
 
     # -- API ---------------------------------------------------------------
-    def start(self, target: int | None, exc_factory: Callable[[], BaseException] | None = None, trace: bool = False) -> None:
+    def start(self, target: int | None, exc_factory: Callable[[], BaseException] | None = None, trace: bool = False, region: tuple | None = None) -> None:
+        """target: fire at the k-th eligible CALL overall; region=(qualname
+        substring, n): fire at the n-th eligible CALL made from code whose
+        qualified name contains the substring."""
         self.count = 0
+        self.region = region[0] if region else None
+        self.region_nth = int(region[1]) if region else -1
+        self.region_count = 0
         self.target = target
         self.exc_factory = exc_factory
         self.fired = None
